@@ -175,10 +175,21 @@ class Model():
         An asset matching the name if it exists in the model.
         """
 
-        # Set asset ID and check for duplicates
-        asset.id = asset_id if asset_id is not None else self.next_id
-        if asset.id in self.asset_ids:
+        # Check for duplicates before anything is changed, so that a
+        # rejected asset leaves the model untouched
+        new_id = asset_id if asset_id is not None else self.next_id
+        if new_id in self.asset_ids:
             raise ValueError(f'Asset index {asset_id} already in use.')
+
+        if (hasattr(asset, 'name') and asset.name in self.asset_names
+                and not allow_duplicate_names):
+            raise ValueError(
+                f'Asset name {asset.name} is a duplicate'
+                ' and we do not allow duplicates.'
+            )
+
+        # Set asset ID
+        asset.id = new_id
         self.asset_ids.add(asset.id)
 
         self.next_id = max(asset.id + 1, self.next_id)
@@ -187,15 +198,8 @@ class Model():
 
         if not hasattr(asset, 'name'):
             asset.name = asset.type + ':' + str(asset.id)
-        else:
-            if asset.name in self.asset_names:
-                if allow_duplicate_names:
-                    asset.name = asset.name + ':' + str(asset.id)
-                else:
-                    raise ValueError(
-                        f'Asset name {asset.name} is a duplicate'
-                        ' and we do not allow duplicates.'
-                    )
+        elif asset.name in self.asset_names:
+            asset.name = asset.name + ':' + str(asset.id)
         self.asset_names.add(asset.name)
 
         # Optional field for extra asset data
